@@ -157,6 +157,8 @@ class Sim:
         self.doc_hooks = []  # callables(sim, ds, source_path or None) run when a document object comes to life
         self.observed = set()
         self.touched = None
+        self._prev_op = "^"
+        self.abstract_states = set()
         self.grid_prefix = self.cfg.get("grid_prefix", "C03")
 
     # ---- helpers ---------------------------------------------------------------------------------
@@ -218,6 +220,10 @@ class Sim:
             msg = f"unknown op {name}"
             raise HarnessError(msg)
         self.stats["ops"][name] = self.stats["ops"].get(name, 0) + 1
+        bg = self.stats.setdefault("bigrams", {})
+        k = f"{self._prev_op}>{name}"
+        bg[k] = bg.get(k, 0) + 1
+        self._prev_op = name
         if self.real:
             self.world.set_step(o.get("id", i))
         try:
@@ -235,9 +241,25 @@ class Sim:
         self.log.append([i, name, outcome])
         if self.real:
             self.check_all(after=name)
+            self.abstract_states.add(self.abstract_state(name, outcome))
 
     def finish(self) -> None:
         pass
+
+    def abstract_state(self, op_name: str, outcome: str) -> int:
+        """A coarse fingerprint of where the run is: used only to measure reach (distinct_abstract_states)."""
+        def bucket(n):
+            return 0 if n == 0 else 1 if n == 1 else 2 if n <= 3 else 3 if n <= 12 else 4 if n <= 255 else 5 if n <= 257 else 6
+        parts = [self.cfg.get("profile", ""), op_name, outcome, len(self.docs)]
+        for ds in self.docs[:3]:
+            m = ds.model
+            parts.append(len(m.sheets))
+            for _si, _ti, t in list(m.tables())[:4]:
+                nonempty = sum(1 for row in t.rows[:40] for v in row[:20] if v is not None)
+                parts.append((bucket(t.nrows), bucket(t.ncols), bucket(nonempty), bucket(len(t.merges)), bucket(len(t.hedge) + len(t.vedge)), bucket(len(t.styles)), t.hdr_r, t.hdr_c))
+            parts.append((ds.saves > 0, ds.failed_saves > 0))
+        parts.append(tuple(sorted((n, sl.status) for n, sl in self.slots.items() if sl.status != "absent")))
+        return hash_str(repr(parts))
 
     def digest(self) -> str:
         return hashlib.sha256(json.dumps(self.log, sort_keys=True, default=str).encode()).hexdigest()
